@@ -97,6 +97,14 @@ def _step_contract(kind):
         c.ensure_eq('C04.step.rays_carry_state', c.val(rays.y), ya)
         c.ensure_eq('C04.step.rays_carry_state', c.val(rays.u), ub)
         c.ensure_eq('C04.step.rays_left_at_vertex', c.val(rays.z), zs_)
+        # the record is a copy: later in-place changes of the bundle (the next surfaces) do not reach back into it
+        rec = (c.val(surf.y), c.val(surf.u))
+        for a in ('y', 'u', 'z'):
+            arr_ = getattr(rays, a)
+            arr_ += 1
+            arr_ *= 3
+        c.ensure_eq('C04.step.record_is_untouched_by_later_in_place_changes_of_the_bundle', c.val(surf.y), rec[0])
+        c.ensure_eq('C04.step.record_is_untouched_by_later_in_place_changes_of_the_bundle', c.val(surf.u), rec[1])
     return step
 
 
